@@ -356,6 +356,8 @@ static int ex_region(char *loc, int *beg, int *end)
 	}
 	if (*beg < 0 && *end == 0)
 		*beg = 0;
+	if (!lbuf_len(xb) && *beg == 0 && *end == 0)	/* line 0 of an empty buffer */
+		return 0;
 	if (*beg < 0 || *beg >= lbuf_len(xb))
 		return 1;
 	if (*end < *beg || *end > lbuf_len(xb))
